@@ -1208,6 +1208,21 @@ pub fn generate(name: &str, count: usize, rng: &mut Rng, sink: &mut dyn FnMut(Se
                 "1:0:0:0:0:0:0:8", "0:0:1::", "::0", "0::0", "::0.0.0.0", "::255.255.255.255", "g::", "1::g", "1:::2", "12345::1", "1::12345", "::1%1", "1:2:3:4::5:6:7:8",
                 "1:2:3::4:5:6:7:8", "::ffff:256.1.1.1", "::ffff:1.2.3", "1.2.3.4:80", "-1.2.3.4", "1.2.3.-4", "1.2.3.4e0"];
             let mut texts: Vec<String> = tricky.iter().map(|x| x.to_string()).collect();
+            // every SHAPE of an IPv6 text: k groups, optionally `::`, m groups, optionally a dotted tail
+            // (k, m in 0..=8): the grammar decides which of them exist
+            for k in 0..=8usize {
+                for m in 0..=8usize {
+                    for dc in [false, true] {
+                        for tail in [false, true] {
+                            let left: Vec<String> = (0..k).map(|g| format!("{:x}", g + 1)).collect();
+                            let mut right: Vec<String> = (0..m).map(|g| format!("{:x}", g + 0xa)).collect();
+                            if tail { right.push("1.2.3.4".to_string()); }
+                            let t = if dc { format!("{}::{}", left.join(":"), right.join(":")) } else { let mut all = left.clone(); all.extend(right.clone()); all.join(":") };
+                            if t.len() <= 50 { texts.push(t); }
+                        }
+                    }
+                }
+            }
             for _ in 0..count {
                 let mut t = render_ipv6(random_groups(rng), rng);
                 if !t.is_empty() && rng.chance(2, 3) {
